@@ -14,34 +14,41 @@
 EXTENDS ServiceAbs, TraceIO
 
 VARIABLE l
-tvars == <<svc, pend, env, gh, l>>
+tvars == <<svc, pend, ek, gh, l>>
 
-Dummy == [mn |-> 1, at |-> UNSET]
+\* the configuration of a run is its `reset` record (fields pat, cfgs, dflt)
+TraceEnv(k) == Rec[k]
 
 TraceInit ==
     /\ l = 1
-    /\ AInit("-", <<>>, Dummy)
+    /\ AInit(1)
     /\ TraceRegInit
 
 Consume ==
     /\ l <= NRec
     /\ l' = l + 1
     /\ LET e == Rec[l] IN
-       CASE e.k = "reset" -> AReset(e.pat, e.cfgs, e.dflt)
+       CASE e.k = "reset" -> AReset(l)
          [] e.k = "call"  -> Call(e.t, e.a, e.nd, e.c, e.h)
          [] e.k = "ret"   -> Ret(e.t, e.a, e.r, e.id, e.s, e.v, e.h)
          [] e.k \in {"obs", "end"} -> /\ e.panics = 0
                                       /\ Quiescent(e.exist, e.listed, e.files, e.shm)
          [] OTHER -> FALSE
 
+\* Linearization points can always be postponed to immediately before the next recorded return
+\* (calls neither read nor change the object), which keeps the search small.
 Silent ==
     /\ l <= NRec
+    /\ Rec[l].k = "ret"
     /\ \E t \in Threads : Lin(t)
     /\ UNCHANGED l
 
-TraceNext == Consume \/ Silent
+TraceNext == Silent \/ Consume
 TraceSpec == TraceInit /\ [][TraceNext]_tvars
 
-Progress == TraceProgress(l)
+\* The first complete explanation ends the search (the queue is a stack: depth first).
+Progress ==
+    /\ TraceProgress(l)
+    /\ l > NRec => TLCSet("exit", TRUE)
 Accepted == TraceAccepted
 =============================================================================
